@@ -55,6 +55,10 @@ def gen_points(rng, n):
             existing=None if rng.random() < 0.8 else rng.choice(["OLD = 1\n", "# old file", ""]))
         c["opts"] = {"emit_call": False, "emit_default_doc": True, "decorator_list": None}
         c["route"] = "api" if rng.random() < 0.8 else "cli"
+        if c["route"] == "cli":
+            # how the command line spells the output file (absolute, ./relative, through a symlinked directory, and - onto
+            # an existing output - with a literal `~`)
+            c["out"] = fam_gen.draw_out(rng, c["existing"])
         pts.append(c)
     return pts
 
@@ -100,7 +104,7 @@ def _run_api(case, ws):
 
 def _cli_cmd(case, ws):
     cmd = [VENV_PY, "-m", "doctrans", "gen", "--name-tpl=" + case["name_tpl"], "--input-mapping=" + ws["input_mapping"],
-           "--type=" + case["type_"], "--output-filename=" + ws["out_path"]]
+           "--type=" + case["type_"], "--output-filename=" + ws.get("out_arg", ws["out_path"])]
     if case["prepend"] is not None:
         cmd.append("--prepend=" + escape_prepend(case["prepend"]))
     if ws["imp_arg"] is not None:
@@ -109,9 +113,9 @@ def _cli_cmd(case, ws):
 
 
 def _run_cli(case, ws):
-    env = dict(os.environ, PYTHONPATH=REPO + os.pathsep + ws["tmp"], PYTHONHASHSEED="0")
+    env = dict(os.environ, PYTHONPATH=REPO + os.pathsep + ws["tmp"], PYTHONHASHSEED="0", **ws.get("env", {}))
     p = subprocess.run(_cli_cmd(case, ws), env=env, stdout=subprocess.PIPE, stderr=subprocess.PIPE, timeout=120,
-                       cwd=ws["tmp"])
+                       cwd=ws.get("cwd") or ws["tmp"])
     if p.returncode == 0:
         return None
     err = p.stderr.decode("latin-1").strip().split("\n")
@@ -160,6 +164,7 @@ def evaluate(case, ws, exc):
         body = ast.parse(text).body
     except SyntaxError:
         return False, "output does not parse"
+    fam_gen.forget_case_modules()     # a fresh import: the mapping may be a one-shot iterable the run has consumed
     mod = importlib.import_module(ws["modname"])
     mobj = getattr(mod, "M")
     items = list(mobj.items() if hasattr(mobj, "items") else mobj)
